@@ -503,6 +503,11 @@ func (Scenario) Run(c choice.Chooser, opt sim.Options) (res sim.Result) {
 				case 8, 9:
 					// a value another source may hold as well (look-alikes)
 					v = []string{"a", "b"}[c.Intn("op:twinval", 2)]
+				case 7:
+					// back to the parameter's declared default
+					if w.srcKind[s] == 0 {
+						v = w.params[s].DefaultValue
+					}
 				}
 				serial++
 			}
